@@ -182,7 +182,7 @@ fn gen_case(src: &mut Src, st: &mut Stats) -> Value {
                 let a = gen_sentence(src, st, 2).unwrap_or_else(|| "a".into());
                 mutate(&a, "b", src).0
             }
-            _ => src.pick(&["@", "s == 'a b'", "o.\"k k\"", "strs[?@ == 'a b']", "`{\"a b\": 1}`.\"a b\"", "join(' , ', strs)", "'x  y'"]).to_string(),
+            _ => src.pick(&["@", "length(@)", "[*][0]", "[-1]", "[][]", "rows[*][1]", "s == 'a b'", "o.\"k k\"", "strs[?@ == 'a b']", "`{\"a b\": 1}`.\"a b\"", "join(' , ', strs)", "'x  y'"]).to_string(),
         }
     } else {
         src.pick(&scalar_exprs).to_string()
@@ -222,7 +222,11 @@ fn gen_case(src: &mut Src, st: &mut Stats) -> Value {
             let _ = k;
             let n = src.size(400);
             let rows: Vec<Value> = (0..n).map(|i| json!([i, i + 1, {"k": [i]}])).collect();
-            json!({"rows": rows, "nums": (0..n).collect::<Vec<usize>>(), "s": "x"})
+            match src.below(3) {
+                0 => json!({"rows": rows, "nums": (0..n).collect::<Vec<usize>>(), "s": "x"}),
+                1 => Value::Array(rows),
+                _ => json!([rows.clone(), [rows], {"rows": [[1], [2]]}]),
+            }
         }
         k if doc_kind && src.chance(20) => {
             let _ = k;
